@@ -342,6 +342,79 @@ def _client_child(dbfile, known, idx, die_at):
     os._exit(3)
 
 
+def large_transaction_stage(c):
+  """The same fault enumeration with LARGE records (1.5 MB of metadata on the study and on each of three trials, so
+  that one UpdateMetadata / DeleteStudy transaction is several MB - more than SQLite keeps in its page cache): whether
+  a half-done transaction can be undone after a process death depends on what the storage engine wrote where, not
+  only on where the commits are.  Oracle without the model (values this large are not sent to the driver): the
+  recovered snapshot is the real snapshot before the call or the one after it, and the file passes
+  `PRAGMA integrity_check`."""
+  import sqlite3
+  tmp = tempfile.mkdtemp(prefix='vverif_c05L_')
+  big = lambda ch: ch * 1500000
+  try:
+    base = os.path.join(tmp, 'base.db')
+    rr0 = open_runner(base)
+    rr0.step({'op': 'createStudy', 'display': 's', 'state': 'ACTIVE'})
+    for i in range(3):
+      rr0.step({'op': 'createTrial', 'trial': {'state': 'SUCCEEDED', 'params': i + 1, 'meas': [], 'final': [i + 1, True], 'md': []}})
+    rr0.step({'op': 'updateMetadata', 'us': [{'t': None, 'kv': ['', 'blob', big('a')]}] + [{'t': i + 1, 'kv': ['', 'blob', big('a')]} for i in range(3)]})
+    before = rr0.snapshot()
+    known = {'owners': sorted(set(rr0.owners + ['o'])), 'clients': sorted(set(rr0.clients + ['w1'])), 'es_ids': sorted(set(list(rr0.es_ids) + [1, 2, 3]))}
+    del rr0
+    targets = [{'op': 'updateMetadata', 'us': [{'t': None, 'kv': ['', 'blob', big('b')]}] + [{'t': i + 1, 'kv': ['', 'blob', big('b')]} for i in range(3)]},
+               {'op': 'deleteStudy'}]
+
+    def short(snap):
+      return json.loads(json.dumps(snap).replace(big('a'), '<1.5MB of a>').replace(big('b'), '<1.5MB of b>'))
+    for t in targets:
+      f0 = os.path.join(tmp, 'trace.db')
+      shutil.copy(base, f0)
+      rr = open_runner(f0, known)
+      tr = Tracer(rr.sv.datastore._engine)  # pylint: disable=protected-access
+      tr.active = True
+      rr.step(t)
+      tr.active = False
+      after = rr.snapshot()
+      del rr
+      n_events = len([e for e in tr.events if e[0] in ('stmt', 'commit')])
+      points = range(n_events + 1) if c.tier == 'thorough' else [k for k in range(n_events + 1) if k % 2 == 1 or k >= n_events - 1]
+      for k in points:
+        f = os.path.join(tmp, 'crash.db')
+        for ext in ('', '-journal', '-wal', '-shm'):
+          if os.path.exists(f + ext):
+            os.remove(f + ext)
+        shutil.copy(base, f)
+        code = run_child(f, known, t, k)
+        if code not in (137, 0):
+          raise core.InfraError('crash child (large transaction) failed with status %s' % code)
+        c.traces += 1
+        c.count(1, ('crash-large', t['op'], k), kind='crash-large:' + t['op'])
+        case = {'request': t['op'] + ' with 1.5 MB values on the study and three trials', 'crash_before_event': k, 'of_events': n_events}
+        try:
+          rr2 = open_runner(f, known)
+          rec = rr2.snapshot()
+          del rr2
+        except Exception as e:  # pylint: disable=broad-except
+          c.prop_fail('unreadable-after-crash:large-' + t['op'], 'after a crash before SQL event %d of a %s that writes several MB the restarted server cannot read its data: %r' % (k, t['op'], e), case)
+          continue
+        con = sqlite3.connect(f)
+        try:
+          integ = [r[0] for r in con.execute('PRAGMA integrity_check').fetchall()]
+        except Exception as e:  # pylint: disable=broad-except
+          integ = ['integrity_check raised %r' % (e,)]
+        finally:
+          con.close()
+        if integ != ['ok']:
+          c.prop_fail('database-corrupt-after-crash:large-' + t['op'], 'after a crash before SQL event %d of a %s that writes several MB the database file fails its integrity check: %s' % (k, t['op'], str(integ)[:200]), case)
+        elif rec != before and rec != after:
+          c.prop_fail('torn-large-transaction:' + t['op'],
+                      'after a crash before SQL event %d of a %s that writes several MB the restarted server shows neither the state before the call nor the state after it' % (k, t['op']),
+                      dict(case, recovered=short(rec)))
+  finally:
+    shutil.rmtree(tmp, ignore_errors=True)
+
+
 def client_crash_stage(c):
   from vizier._src.service import vizier_client
   tmp = tempfile.mkdtemp(prefix='vverif_c05c_')
@@ -418,6 +491,7 @@ def run(c):
   clientshapecheck.stage(c)
   crash_stage(c)
   client_crash_stage(c)
+  large_transaction_stage(c)
   svc.cleanup()
   c.coverage_extra['exhaustive'] = True
   c.coverage_extra['exhaustive_over'] = 'every SQL statement/commit event of every listed RPC after every listed prefix'
